@@ -253,14 +253,19 @@ def parse_assumptions(log):
 # --------------------------------------------------------------------------
 # OCaml model driver (extracted models + hand-written line protocol)
 
-def gen_extract():
-    """coq/extract/*.roots  ->  coq/extract/Extract.v (one module, mdl.ml)."""
+def extract_families():
     exd = os.path.join(COQ, "extract")
-    reqs, roots = [], []
-    for f in sorted(os.listdir(exd)):
-        if not f.endswith(".roots"):
-            continue
-        for line in open(os.path.join(exd, f)):
+    return sorted(f[:-6] for f in os.listdir(exd) if f.endswith(".roots") and f != "base.roots")
+
+
+def gen_extract():
+    """coq/extract/<fam>.roots -> coq/extract/Extract_<fam>.v, each extracting into its OWN OCaml module
+    mdl_<fam>.ml (so that identifiers of different models never clash). base.roots is added to every family."""
+    exd = os.path.join(COQ, "extract")
+
+    def read(fn):
+        reqs, roots = [], []
+        for line in open(os.path.join(exd, fn)):
             w = line.split("#")[0].split()
             if not w:
                 continue
@@ -268,54 +273,86 @@ def gen_extract():
                 reqs += [x for x in w[1:] if x not in reqs]
             elif w[0] == "root":
                 roots += [x for x in w[1:] if x not in roots]
-    text = ("(* GENERATED from extract/*.roots by tools/vplib/common.py *)\n"
-            "From Coq Require Import Extraction ExtrOcamlBasic.\n"
-            + "".join("Require %s.\n" % r for r in reqs)
-            + "Extraction Language OCaml.\n"
-            + "Extraction \"mdl.ml\" " + " ".join(roots) + ".\n")
-    write_if_changed(os.path.join(exd, "Extract.v"), text)
+        return reqs, roots
+    breqs, broots = read("base.roots")
+    fams = extract_families()
+    for fam in fams:
+        reqs, roots = read(fam + ".roots")
+        reqs = reqs + [r for r in breqs if r not in reqs]
+        roots = roots + [r for r in broots if r not in roots]
+        text = ("(* GENERATED from extract/%s.roots by tools/vplib/common.py *)\n" % fam
+                + "From Coq Require Import Extraction ExtrOcamlBasic.\n"
+                + "".join("Require %s.\n" % r for r in reqs)
+                + "Extraction Language OCaml.\n"
+                + "Extraction \"mdl_%s.ml\" " % fam + " ".join(roots) + ".\n")
+        write_if_changed(os.path.join(exd, "Extract_%s.v" % fam), text)
+    for f in os.listdir(exd):
+        if f.startswith("Extract") and f.endswith(".v") and f[8:-2] not in fams:
+            os.remove(os.path.join(exd, f))
+    return fams
 
 
 def build_model():
-    """Extract the models and build ocaml/driver. Returns (ok, log, path)."""
+    """Extract the models (one OCaml module per family) and build ocaml/driver. Returns (ok, log, path).
+    ops_<fam>.ml is compiled with `Mdl` bound to its own family's module and `Driver_core` providing
+    register + number conversions for that module's types."""
     odir = os.path.join(CACHE, "ocaml")
     os.makedirs(odir, exist_ok=True)
     exe = os.path.join(odir, "driver")
     with Lock("extractgen"):
-        gen_extract()
-    ok, log = coq_make(["extract/Extract.v"])
-    if not ok:
-        return False, log, exe
+        fams = gen_extract()
+    ok, log = coq_make(["extract/Extract_%s.v" % f for f in fams])
+    # a family whose extraction fails is left out (its ops answer `unsupported`); others still work
+    good = [f for f in fams if os.path.exists(os.path.join(COQ, "extract", "Extract_%s.vo" % f))
+            and os.path.exists(os.path.join(COQ, "mdl_%s.ml" % f))]
+    bad = [f for f in fams if f not in good]
+    if bad:
+        log += "\nEXTRACTION FAILED for families: %s\n" % bad
+    src = os.path.join(VERIF, "ocaml")
     with Lock("ocaml"):
-        mls = [f for f in ("mdl.mli", "mdl.ml") if os.path.exists(os.path.join(COQ, f))]
-        if len(mls) != 2:
-            return False, log + "\nextraction produced no mdl.ml", exe
         h = hashlib.sha256()
-        for f in mls:
-            h.update(open(os.path.join(COQ, f), "rb").read())
-        ops = sorted(f for f in os.listdir(os.path.join(VERIF, "ocaml")) if f.endswith(".ml"))
-        for f in ops:
-            h.update(open(os.path.join(VERIF, "ocaml", f), "rb").read())
+        for f in good:
+            for ext in (".mli", ".ml"):
+                h.update(open(os.path.join(COQ, "mdl_%s%s" % (f, ext)), "rb").read())
+        ofiles = sorted(f for f in os.listdir(src) if f.endswith(".ml"))
+        for f in ofiles:
+            h.update(open(os.path.join(src, f), "rb").read())
         key = h.hexdigest()
         keyf = os.path.join(odir, "key")
         if os.path.exists(exe) and os.path.exists(keyf) and open(keyf).read() == key:
-            return True, log, exe
+            return not bad, log, exe
         for f in os.listdir(odir):
             if f.endswith((".ml", ".mli", ".cmi", ".cmx", ".o", ".cmo")):
                 os.remove(os.path.join(odir, f))
-        for f in mls:
-            with open(os.path.join(COQ, f), "rb") as a, open(os.path.join(odir, f), "wb") as b:
-                b.write(a.read())
-        for f in ops:
-            with open(os.path.join(VERIF, "ocaml", f), "rb") as a, open(os.path.join(odir, f), "wb") as b:
-                b.write(a.read())
-        order = ["mdl.mli", "mdl.ml", "driver_core.ml"] + [f for f in ops if f.startswith("ops_")] + ["driver_main.ml"]
+        order = ["driver_base.ml"]
+        with open(os.path.join(src, "driver_base.ml")) as a, open(os.path.join(odir, "driver_base.ml"), "w") as bf:
+            bf.write(a.read())
+        conv = open(os.path.join(src, "conv_template.ml")).read()
+        for f in good:
+            for ext in (".mli", ".ml"):
+                with open(os.path.join(COQ, "mdl_%s%s" % (f, ext)), "rb") as a, open(os.path.join(odir, "mdl_%s%s" % (f, ext)), "wb") as bf:
+                    bf.write(a.read())
+            order += ["mdl_%s.mli" % f, "mdl_%s.ml" % f]
+            opsf = os.path.join(src, "ops_%s.ml" % f)
+            if not os.path.exists(opsf):
+                continue
+            with open(os.path.join(odir, "conv_%s.ml" % f), "w") as bf:
+                bf.write("open Mdl_%s\n" % f + conv)
+            with open(os.path.join(odir, "ops_%s.ml" % f), "w") as bf:
+                bf.write("module Mdl = Mdl_%s\nmodule Driver_core = struct include Driver_base include Conv_%s end\n"
+                         % (f, f))
+                bf.write("# 1 \"ops_%s.ml\"\n" % f)
+                bf.write(open(opsf).read())
+            order += ["conv_%s.ml" % f, "ops_%s.ml" % f]
+        with open(os.path.join(src, "driver_main.ml")) as a, open(os.path.join(odir, "driver_main.ml"), "w") as bf:
+            bf.write(a.read().replace("Driver_core.handlers", "Driver_base.handlers"))
+        order.append("driver_main.ml")
         rc, out, err = sh(["ocamlfind", "ocamlopt", "-O2", "-w", "-a", "-package", "str,unix", "-linkpkg",
                            "-o", exe] + order, cwd=odir, timeout=900)
         if rc != 0:
             return False, log + out + err, exe
         open(keyf, "w").write(key)
-        return True, log, exe
+        return not bad, log, exe
 
 
 def run_lines(exe, args, lines, timeout=600, shards=1):
